@@ -143,7 +143,7 @@ pub fn check_touched(cx: &mut CaseCx, i: usize, inst: &Inst, b: &Base, path: &[A
           v.key = format!("C14/restored-instance-differs/foreign-importer/{}", v.key.trim_start_matches("C14/"));
           v.what = format!("a server of another key that had punctured more tags, after importing the state exported by instance {}, is distinguishable from the exporter: {}", i, v.what);
         }
-        if export_bytes(&restored.s).ok().as_ref() != Some(&bytes) {
+        if export_bytes(&restored.s).ok().map(|b| canon_export(&b)) != Some(canon_export(&bytes)) {
           cx.viol("C14/restored-instance-differs/foreign-importer/re-export", "a server of another key that imported the state re-exports a different key state", json!({"history": path_json(path), "instance": i}));
         }
       }
@@ -162,8 +162,8 @@ pub fn check_touched(cx: &mut CaseCx, i: usize, inst: &Inst, b: &Base, path: &[A
             cx.viol("C14/restored-instance-differs/observable", "restored server and exporter answer differently", json!({"history": path_json(path), "instance": i}));
           }
           // re-export is identical (nothing lost or added in transit)
-          if export_bytes(&restored.s).ok().as_ref() != Some(&bytes) {
-            cx.viol("C14/restored-instance-differs/re-export", "the restored server exports a different key state than it imported", json!({"history": path_json(path), "instance": i}));
+          if export_bytes(&restored.s).ok().map(|b| canon_export(&b)) != Some(canon_export(&bytes)) {
+            cx.viol("C14/restored-instance-differs/re-export", "the restored server exports a different key state than it imported (compared up to the order of the retained nodes)", json!({"history": path_json(path), "instance": i}));
           }
           cx.count("export_import_checks", 1);
         }
@@ -216,7 +216,7 @@ pub fn step(st: &St, a: &Act, sc: &mut CaseCx) -> Option<St> {
         Ok(false) if already => {
           sc.count("refused_double_punctures", 1);
           // a refused puncture must leave the instance as it was
-          if export_bytes(&n.inst[*i].s).ok() != export_bytes(&st.inst[*i].s).ok() {
+          if export_bytes(&n.inst[*i].s).ok().map(|b| canon_export(&b)) != export_bytes(&st.inst[*i].s).ok().map(|b| canon_export(&b)) {
             sc.viol("C14/refused-puncture-changed-state", format!("a refused puncture of tag {} changed the key state", t), json!({"history": path_json(&n.path)}));
           }
           None
@@ -366,6 +366,31 @@ pub fn visit(st: &St, b: &Base, sc: &mut CaseCx) {
   }
 }
 
+/// canonical form of an exported key state: everything but the order of the retained nodes
+pub fn canon_export(bytes: &[u8]) -> Vec<u8> {
+  match parse_export(bytes) {
+    Some(e) => {
+      let mut nodes = e.prefixes;
+      nodes.sort();
+      let mut punct = e.punctured;
+      punct.sort();
+      let mut out = vec![];
+      out.extend_from_slice(&e.oprf_key);
+      out.extend_from_slice(&e.base_pk);
+      for (k, v) in e.md_pks {
+        out.push(k);
+        out.extend_from_slice(&v);
+      }
+      for p in e.prgs {
+        out.extend_from_slice(&p);
+      }
+      out.extend_from_slice(format!("{:?}", nodes).as_bytes());
+      out.extend_from_slice(format!("{:?}", punct).as_bytes());
+      out
+    }
+    None => bytes.to_vec(),
+  }
+}
 fn canon_exports(st: &St) -> Vec<Option<Vec<(Vec<bool>, Vec<u8>)>>> {
   st.inst
     .iter()
